@@ -23,6 +23,7 @@ CHECKS = {
         legs=[
             leg("TestC04Go", quick=(2500, 2), thorough=(50000, 16)),
             leg("TestC04Peer", quick=(500, 1), thorough=(5000, 4)),
+            leg("TestC04Concurrent", quick=(300, 2), thorough=(5000, 4)),
         ],
         level="exploration",
         technique="property-based testing (rapid): round trip against an independent reference codec written from protocol.md + differential with the Python runtime codec and contrib/frame_parser.py",
